@@ -425,6 +425,211 @@ fn none<T>(_: T, _: &CaseIn) -> bool {
 	true
 }
 
+fn inputs_conv(i: Inputs) -> bool {
+	st(S_INPUTS, || {
+		let n = i.len();
+		let w: Vec<CommitWrapper> = (&i).into();
+		let _ = (i.is_empty(), i.version_str());
+		let back = Inputs::from(&w[..]);
+		w.len() == n && back.len() == n
+	})
+}
+
+/// adapters::transaction_received -> TransactionPool::add_to_pool up to the first chain access (is_acceptable's fee
+/// arithmetic, `tx.validate(Weighting::AsTransaction)`); api pool push logs hash and counts first
+fn post_tx(tx: Transaction, _: &CaseIn) -> bool {
+	let a = st(S_TX_VREAD, || {
+		let a = tx.validate_read().is_ok();
+		let _ = tx.body.validate_read(Weighting::AsTransaction);
+		a
+	});
+	st(S_TX_HASH, || {
+		let _ = tx.hash();
+		tx.inputs().len() + tx.outputs().len() + tx.kernels().len() > 0
+	});
+	st(S_TX_FEES, || {
+		let _ = (tx.fee(), tx.shifted_fee(), tx.accept_fee(), tx.fee_rate(), tx.weight(), tx.overage(), tx.fee_shift());
+		tx.aggregate_fee_fields().is_ok()
+	});
+	inputs_conv(tx.inputs());
+	st(S_KERN_VERIFY, || tx.kernels().iter().take(4).all(|k| k.verify().is_ok()));
+	st(S_TX_VALIDATE, || tx.validate(Weighting::AsTransaction).is_ok());
+	a
+}
+fn post_body(b: TransactionBody, _: &CaseIn) -> bool {
+	st(S_BODY_VREAD, || {
+		let a = b.validate_read(Weighting::AsBlock).is_ok();
+		let _ = b.validate_read(Weighting::AsTransaction);
+		let _ = b.validate_read(Weighting::NoLimit);
+		a
+	})
+}
+/// chain::pipe::validate_header up to the first store access, and what adapters / hooks log
+fn header_steps(h: &BlockHeader) -> bool {
+	st(S_HDR_ACC, || {
+		let _ = (h.hash(), h.total_difficulty(), h.overage(), h.total_overage(true), h.total_overage(false), h.total_kernel_offset());
+		let _ = (h.output_mmr_count(), h.kernel_mmr_count(), h.pre_pow().len());
+		true
+	});
+	st(S_POW_DIFF, || {
+		let _ = (h.pow.is_primary(), h.pow.is_secondary(), h.pow.edge_bits());
+		h.pow.to_difficulty(h.height).to_num() > 0
+	})
+}
+/// adapters::block_received (log line), pipe::process_block -> validate_block = `Block::validate`, broadcast conversion
+fn post_block(b: Block, _: &CaseIn) -> bool {
+	let a = st(S_BLK_VREAD, || b.validate_read().is_ok());
+	st(S_BLK_HASH, || {
+		let _ = b.hash();
+		b.inputs().len() + b.outputs().len() + b.kernels().len() > 0
+	});
+	header_steps(&b.header);
+	st(S_BLK_FEES, || b.total_fees() > 0);
+	inputs_conv(b.inputs());
+	st(S_BLK_COINBASE, || b.verify_coinbase().is_ok());
+	st(S_BLK_VALIDATE, || b.validate(&BlindingFactor::zero()).is_ok());
+	st(S_CB_FROM, || {
+		let cb: CompactBlock = b.into();
+		let _ = cb.hash();
+		true
+	});
+	a
+}
+fn post_ublock(b: UntrustedBlock, c: &CaseIn) -> bool {
+	let mut blk = None;
+	st(S_UB_INTO, || {
+		blk = Some(Block::from(b));
+		true
+	});
+	post_block(blk.expect("block"), c)
+}
+/// adapters::compact_block_received: log line, `Block::hydrate_from(cb, &[])`, `block.validate(prev offset)`
+fn post_cb(cb: CompactBlock, _: &CaseIn) -> bool {
+	st(S_CB_ACC, || {
+		let _ = (cb.hash(), cb.nonce);
+		cb.out_full().len() + cb.kern_full().len() + cb.kern_ids().len() > 0
+	});
+	header_steps(&cb.header);
+	let mut blk = None;
+	let a = st(S_HYDRATE, || match Block::hydrate_from(cb, &[]) {
+		Ok(b) => {
+			blk = Some(b);
+			true
+		}
+		Err(_) => false,
+	});
+	if let Some(b) = blk {
+		st(S_BLK_VALIDATE, || b.validate(&BlindingFactor::zero()).is_ok());
+	}
+	a
+}
+fn post_ucb(b: UntrustedCompactBlock, c: &CaseIn) -> bool {
+	let mut cb = None;
+	st(S_UCB_INTO, || {
+		cb = Some(CompactBlock::from(b));
+		true
+	});
+	post_cb(cb.expect("compact block"), c)
+}
+fn post_uheader(h: UntrustedBlockHeader, _: &CaseIn) -> bool {
+	let mut bh = None;
+	st(S_UH_INTO, || {
+		bh = Some(BlockHeader::from(h));
+		true
+	});
+	header_steps(&bh.expect("header"))
+}
+fn post_kernel(k: TxKernel, _: &CaseIn) -> bool {
+	let a = st(S_KERN_VERIFY, || k.verify().is_ok());
+	st(S_KERN_ACC, || {
+		let _ = (k.hash(), k.is_coinbase(), k.is_plain(), k.is_height_locked(), k.is_nrd());
+		k.msg_to_sign().is_ok()
+	});
+	a
+}
+fn post_merkle(p: MerkleProof, c: &CaseIn) -> bool {
+	let id = OutputIdentifier::new(OutputFeatures::Plain, &Commitment::from_vec(vec![9u8; 33]));
+	let e = seg_env(c);
+	let a = st(S_MP_VERIFY, || {
+		let a = p.verify(e.root, &id, c.aux & 0xfff).is_ok();
+		let b = p.verify(e.root, &id, p.mmr_size.wrapping_sub(1)).is_ok();
+		a || b
+	});
+	st(S_MP_HEX, || !p.to_hex().is_empty());
+	a
+}
+fn post_segproof(p: SegmentProof, c: &CaseIn) -> bool {
+	let e = seg_env(c);
+	let last = e.mmr_size - 1;
+	let first = last.saturating_sub(c.aux >> 40 & 0xff);
+	st(S_SP_RECON, || p.reconstruct_root(e.mmr_size, first, last, e.other, 1 + last).is_ok());
+	st(S_SP_VALIDATE, || p.validate(e.mmr_size, e.root, first, last, e.other, 1 + last).is_ok());
+	st(S_SP_VALIDATE_WITH, || {
+		let _ = p.size();
+		p.validate_with(e.mmr_size, e.root, 0, last, e.other, 1 + last, e.last_pos, e.other, true).is_ok()
+	});
+	true
+}
+/// protocol.rs: `segment.into_segment()?` on every received OutputBitmapSegment, then Desegmenter::add_bitmap_segment
+/// (validate_with), apply_bitmap_segment (append_chunk), and the serving side's conversion back
+fn post_bitmap_segment(bs: BitmapSegment, c: &CaseIn) -> bool {
+	let mut seg: Option<Segment<BitmapChunk>> = None;
+	let conv = st(S_BM_INTO, || match bs.into_segment() {
+		Ok(s) => {
+			seg = Some(s);
+			true
+		}
+		Err(_) => false,
+	});
+	let seg = match seg {
+		Some(s) => s,
+		None => return conv,
+	};
+	let ok = seg_checks(&seg, c);
+	st(S_BM_APPEND, || {
+		let mut acc = BitmapAccumulator::new();
+		let (_, _, _, _, leaf_data, _) = seg.clone().parts();
+		let mut all = true;
+		for ch in leaf_data.into_iter().take(64) {
+			all &= acc.append_chunk(ch).is_ok();
+		}
+		let _ = acc.as_bitmap();
+		all
+	});
+	st(S_BM_FROM, || {
+		let back = BitmapSegment::from(seg);
+		back.into_segment().is_ok()
+	});
+	ok
+}
+fn post_peer_addrs(pa: PeerAddrs, _: &CaseIn) -> bool {
+	st(S_ADDRS, || {
+		// Peers::add_connected / peer_addrs_received: keyed by `as_key`, logged with Display
+		let keys: HashSet<String> = pa.as_slice().iter().map(|a| a.as_key()).collect();
+		let _ = pa.as_slice().iter().map(|a| a.to_string().len()).sum::<usize>();
+		let d = pa.difference(pa.as_slice());
+		let first = pa.as_slice().first().map(|a| pa.contains(a)).unwrap_or(true);
+		keys.len() <= pa.as_slice().len() && d.as_slice().is_empty() && first
+	})
+}
+fn post_locator(l: Locator, _: &CaseIn) -> bool {
+	st(S_LOCATOR, || {
+		let _ = l.hashes.iter().map(|h| h.to_hex().len()).sum::<usize>();
+		l.hashes.len() <= 20
+	})
+}
+fn post_archive(a: TxHashSetArchive, _: &CaseIn) -> bool {
+	st(S_ARCHIVE, || archive_meta(&a).size as u64 == a.bytes)
+}
+fn archive_meta(a: &TxHashSetArchive) -> AttachmentMeta {
+	AttachmentMeta {
+		size: a.bytes as usize,
+		hash: a.hash,
+		height: a.height,
+		start_time: Utc::now(),
+		path: PathBuf::from("/nonexistent"),
+	}
+}
 /// handshake.rs: what `Handshake::accept` / `initiate` read off a decoded Hand / Shake
 fn post_hand(h: Hand, _: &CaseIn) -> bool {
 	st(S_HAND, || {
